@@ -34,7 +34,7 @@ for p in props:
         "level_claimed": {
             "category": "other",
             "text": meta.get("level_text", "Static, all-paths decision of the structural clauses listed in the evidence explanation: each is a necessary "
-                    "condition of the behavioural property (breaking it yields a failing schedule/input); sufficiency under all interleavings is not claimed. ") + " Decided: " + meta["explanation"][:600],
+                    "condition of the behavioural property (breaking it yields a failing schedule/input); sufficiency under all interleavings is not claimed. ") + " Decided: " + meta["explanation"][:1500],
             "design_ref": "DESIGN.md section 3, %s" % pid,
         },
         "level_note": "Not decided: " + meta.get("not_decided", "") + ". Trusted: clang 14 front end, LLVM normalisation passes, the x86-64 memory-model table (DESIGN 2.2); "
